@@ -4,79 +4,81 @@
    numeric carrier, its operations, the unit constants and ALL oracles. *)
 From Coq Require Import String List Bool ZArith QArith.
 From SpdVerif Require Import Base.CfgNumOps Spec.ConfigSpec Gen.ConfigTables Gen.ConfigSites Model.ConfigTypes Model.Config Model.NumInst
-  Proofs.C17_rules Proofs.C17_finite Proofs.C17_entry.
+  Proofs.C17_rules Proofs.C17_finite Proofs.C17_entry Proofs.C17_current.
 Import ListNotations.
 
 (* error rule 1: both or neither of the signal's internal and external angle *)
-Theorem C17_rule_signal_angles : forall num (o : NumOps num) U K minpos (c : spdc_cfg num),
-  angle_spec_bad (c_signal c) -> try_as_spdc_steps o U K minpos c = Err EThetaSpec.
+Theorem C17_rule_signal_angles : forall num (o : NumOps num) U K minpos rj (c : spdc_cfg num),
+  angle_spec_bad (c_signal c) -> try_as_spdc_steps o U K minpos rj c = Err EThetaSpec.
 Proof. exact rule_signal_angles. Qed.
 
 (* error rule 2: automatic crystal angle together with periodic poling (never Ok; Err as soon as signal and poling
    themselves are built) *)
-Theorem C17_rule_auto_theta_with_poling : forall num (o : NumOps num) U K minpos (c : spdc_cfg num) signal pp nf,
+Theorem C17_rule_auto_theta_with_poling : forall num (o : NumOps num) U K minpos rj (c : spdc_cfg num) signal pp nf,
   cc_theta_deg (c_crystal c) = Auto -> c_pp c <> PCOff ->
-  signal_step o K c = Ok signal -> poling_step o K minpos c signal = Ok (pp, nf) ->
-  try_as_spdc_steps o U K minpos c = Err EAutoThetaWithPoling.
+  signal_step o K c = Ok signal -> poling_step o K minpos rj c signal = Ok (pp, nf) ->
+  try_as_spdc_steps o U K minpos rj c = Err EAutoThetaWithPoling.
 Proof. exact rule_auto_theta_with_poling. Qed.
 
-Theorem C17_rule_auto_theta_with_poling_never_ok : forall num (o : NumOps num) U K minpos (c : spdc_cfg num),
-  cc_theta_deg (c_crystal c) = Auto -> c_pp c <> PCOff -> is_ok (try_as_spdc_steps o U K minpos c) = false.
+Theorem C17_rule_auto_theta_with_poling_never_ok : forall num (o : NumOps num) U K minpos rj (c : spdc_cfg num),
+  cc_theta_deg (c_crystal c) = Auto -> c_pp c <> PCOff -> is_ok (try_as_spdc_steps o U K minpos rj c) = false.
 Proof. exact rule_auto_theta_with_poling_never_ok. Qed.
 
 (* error rule 3 (lambda_s <= lambda_p): the full decision table of what the code does.  Only the class
    "explicit crystal angle, no poling, automatic idler" yields the error the property demands; the other classes panic
    or succeed (finding F7, refuted lemmas in Findings/C17_F7.v). *)
-Theorem C17_signal_le_pump_outcomes : forall num (o : NumOps num) U K minpos (c : spdc_cfg num) signal,
+Theorem C17_signal_le_pump_outcomes : forall num (o : NumOps num) U K minpos rj (c : spdc_cfg num) signal,
   signal_step o K c = Ok signal -> signal_le_pump o signal (cfg_pump o c) = true ->
   match c_pp c with
-  | PCConfig Auto _ => try_as_spdc_steps o U K minpos c = Panic SiteOptPeriodUnwrap
-  | PCConfig (Param _) _ => try_as_spdc_steps o U K minpos c = Panic SiteComputeSignUnwrap
+  | PCConfig Auto _ => try_as_spdc_steps o U K minpos rj c = Panic SiteOptPeriodUnwrap
+  | PCConfig (Param pu) _ =>
+      if rj && neqb o pu (n0 o) then try_as_spdc_steps o U K minpos rj c = Err EBadPeriod
+      else try_as_spdc_steps o U K minpos rj c = Panic SiteComputeSignUnwrap
   | PCOff =>
       match cc_theta_deg (c_crystal c) with
-      | Auto => try_as_spdc_steps o U K minpos c = Panic SiteOptThetaUnwrap \/ try_as_spdc_steps o U K minpos c = Panic SiteNelderMeadUnwrap
+      | Auto => try_as_spdc_steps o U K minpos rj c = Panic SiteOptThetaUnwrap \/ try_as_spdc_steps o U K minpos rj c = Panic SiteNelderMeadUnwrap
       | Param _ =>
           match c_idler c with
-          | Auto => try_as_spdc_steps o U K minpos c = Err ESignalLePump
+          | Auto => try_as_spdc_steps o U K minpos rj c = Err ESignalLePump
           | Param ic =>
               match beam_of_cfg o K (idler_polarization (cs_pm (cfg_cs0 o c))) ic (cfg_cs0 o c) with
-              | Ok _ => is_ok (try_as_spdc_steps o U K minpos c) = true
-              | Err e => try_as_spdc_steps o U K minpos c = Err e
-              | Panic s => try_as_spdc_steps o U K minpos c = Panic s
+              | Ok _ => is_ok (try_as_spdc_steps o U K minpos rj c) = true
+              | Err e => try_as_spdc_steps o U K minpos rj c = Err e
+              | Panic s => try_as_spdc_steps o U K minpos rj c = Panic s
               end
           end
       end
   end.
 Proof. exact signal_le_pump_outcomes. Qed.
 
-Theorem C17_rule_signal_le_pump_partial : forall num (o : NumOps num) U K minpos (c : spdc_cfg num) signal,
+Theorem C17_rule_signal_le_pump_partial : forall num (o : NumOps num) U K minpos rj (c : spdc_cfg num) signal,
   signal_step o K c = Ok signal -> signal_le_pump o signal (cfg_pump o c) = true ->
   c_pp c = PCOff -> cc_theta_deg (c_crystal c) <> Auto -> c_idler c = Auto ->
-  try_as_spdc_steps o U K minpos c = Err ESignalLePump.
+  try_as_spdc_steps o U K minpos rj c = Err ESignalLePump.
 Proof. exact rule_signal_le_pump_partial. Qed.
 
 (* error rule 4: the automatic poling period does not fit into the crystal *)
-Theorem C17_rule_impossible_period : forall num (o : NumOps num) U K minpos (c : spdc_cfg num) signal a p,
+Theorem C17_rule_impossible_period : forall num (o : NumOps num) U K minpos rj (c : spdc_cfg num) signal a p,
   signal_step o K c = Ok signal -> c_pp c = PCConfig Auto a ->
   signal_le_pump o signal (cfg_pump o c) = false ->
   neqb o (o_dkz0 K signal (cfg_pump o c) (cfg_cs0 o c)) (n0 o) = false ->
   o_nm_period K signal (cfg_pump o c) (cfg_cs0 o c) = Some p ->
   nltb o (cs_length (cfg_cs0 o c)) p = true ->
-  try_as_spdc_steps o U K minpos c = Err EImpossiblePeriod.
+  try_as_spdc_steps o U K minpos rj c = Err EImpossiblePeriod.
 Proof. exact rule_impossible_period. Qed.
 
 (* never panics — for the non-failing class: signal wavelength longer than the pump's, and no simplex search fails
    (oracle contract; it fails exactly on a NaN cost, checked per input by the harness).  The unrestricted statement is
    refuted: Findings/C17_F7.v. *)
-Theorem C17_no_panic_partial : forall num (o : NumOps num) U K minpos (c : spdc_cfg num),
+Theorem C17_no_panic_partial : forall num (o : NumOps num) U K minpos rj (c : spdc_cfg num),
   searches_total K ->
   (forall signal, signal_step o K c = Ok signal -> signal_le_pump o signal (cfg_pump o c) = false) ->
-  is_panic (try_as_spdc_steps o U K minpos c) = false.
+  is_panic (try_as_spdc_steps o U K minpos rj c) = false.
 Proof. exact no_panic_partial. Qed.
 
 (* every panic is one of the three unwraps of the "signal <= pump" error, or a failed simplex search *)
-Theorem C17_panic_sites : forall num (o : NumOps num) U K minpos (c : spdc_cfg num) s,
-  try_as_spdc_steps o U K minpos c = Panic s ->
+Theorem C17_panic_sites : forall num (o : NumOps num) U K minpos rj (c : spdc_cfg num) s,
+  try_as_spdc_steps o U K minpos rj c = Panic s ->
   (exists signal, signal_step o K c = Ok signal /\ signal_le_pump o signal (cfg_pump o c) = true /\
                   (s = SiteOptThetaUnwrap \/ s = SiteComputeSignUnwrap \/ s = SiteOptPeriodUnwrap))
   \/ s = SiteNelderMeadUnwrap.
@@ -85,20 +87,20 @@ Proof. exact panic_sites. Qed.
 (* finiteness (real-number counterpart: every partial operation is defined): under the oracle contracts "idler angle and
    waist position defined" and "delta k of the unpoled crystal is not exactly 0", a successful conversion has no
    non-finite field.  _partial: binary64 overflow/underflow is not modelled; the contracts are checked per input. *)
-Theorem C17_finite_partial : forall num (o : NumOps num) U K minpos (c : spdc_cfg num) s nf,
+Theorem C17_finite_partial : forall num (o : NumOps num) U K minpos rj (c : spdc_cfg num) s nf,
   geometry_defined K ->
   (forall signal, signal_step o K c = Ok signal -> neqb o (o_dkz0 K signal (cfg_pump o c) (cfg_cs0 o c)) (n0 o) = false) ->
-  try_as_spdc_steps o U K minpos c = Ok (s, nf) -> nf = [].
+  try_as_spdc_steps o U K minpos rj c = Ok (s, nf) -> nf = [].
 Proof. exact finite_partial. Qed.
 
 (* the period is infinite only when poling is off: poling is on in the setup iff the configuration asks for it, and an
    infinite period with poling on needs the automatic period with delta k exactly 0 *)
-Theorem C17_poling_off_iff : forall num (o : NumOps num) U K minpos (c : spdc_cfg num) s nf,
-  try_as_spdc_steps o U K minpos c = Ok (s, nf) -> (s_pp s = PolOff <-> c_pp c = PCOff).
+Theorem C17_poling_off_iff : forall num (o : NumOps num) U K minpos rj (c : spdc_cfg num) s nf,
+  try_as_spdc_steps o U K minpos rj c = Ok (s, nf) -> (s_pp s = PolOff <-> c_pp c = PCOff).
 Proof. exact poling_off_iff. Qed.
 
-Theorem C17_infinite_period_only_if : forall num (o : NumOps num) U K minpos (c : spdc_cfg num) s nf,
-  try_as_spdc_steps o U K minpos c = Ok (s, nf) -> In NFPeriodInfinite nf ->
+Theorem C17_infinite_period_only_if : forall num (o : NumOps num) U K minpos rj (c : spdc_cfg num) s nf,
+  try_as_spdc_steps o U K minpos rj c = Ok (s, nf) -> In NFPeriodInfinite nf ->
   exists a signal, c_pp c = PCConfig Auto a /\ signal_step o K c = Ok signal /\
                    neqb o (o_dkz0 K signal (cfg_pump o c) (cfg_cs0 o c)) (n0 o) = true.
 Proof. exact infinite_period_only_if. Qed.
@@ -107,19 +109,73 @@ Proof. exact infinite_period_only_if. Qed.
    The entry point: try_as_spdc V = (if V: the up-front check `signal.wavelength_nm <= pump.wavelength_nm -> Err`) followed by
    the conversion steps.  V is READ OFF THE SOURCE by the generator (Gen/ConfigSites.v: cfg_validates_wavelengths).  All
    theorems above are about the steps; they transfer to the entry point whenever the check does not fire: *)
-Theorem C17_entry : forall num (o : NumOps num) U K minpos V (c : spdc_cfg num),
-  entry_passes o V c -> try_as_spdc o U K minpos V c = try_as_spdc_steps o U K minpos c.
+Theorem C17_entry : forall num (o : NumOps num) U K minpos rj V (c : spdc_cfg num),
+  entry_passes o V c -> try_as_spdc o U K minpos rj V c = try_as_spdc_steps o U K minpos rj c.
 Proof. exact entry_passes_eq. Qed.
 
 (* On a tree that validates (V = true): rule 3 holds in every auto/explicit combination, and no unwrap() of the
    "signal <= pump" error is reachable any more: only a failed simplex search can panic. *)
-Theorem C17_rule_signal_le_pump_when_validated : forall num (o : NumOps num) U K minpos (c : spdc_cfg num),
-  cfg_le o c = true -> try_as_spdc o U K minpos true c = Err ESignalLePump.
+Theorem C17_rule_signal_le_pump_when_validated : forall num (o : NumOps num) U K minpos rj (c : spdc_cfg num),
+  cfg_le o c = true -> try_as_spdc o U K minpos rj true c = Err ESignalLePump.
 Proof. exact entry_validation_le. Qed.
 
-Theorem C17_panics_only_search_when_validated : forall num (o : NumOps num) U K minpos (c : spdc_cfg num) s,
-  scale_order o -> try_as_spdc o U K minpos true c = Panic s -> s = SiteNelderMeadUnwrap.
+Theorem C17_panics_only_search_when_validated : forall num (o : NumOps num) U K minpos rj (c : spdc_cfg num) s,
+  scale_order o -> try_as_spdc o U K minpos rj true c = Panic s -> s = SiteNelderMeadUnwrap.
 Proof. exact validated_panics_only_search. Qed.
+
+(* =====================================================================================================================
+   FULL STRENGTH, for the code as it is now: try_as_spdc_now = the model instantiated with the flags the generator reads off
+   the source (cfg_validates_wavelengths, cfg_rejects_bad_period); C17_flags_now pins them (a source that loses the up-front
+   wavelength validation or the zero-period rejection breaks this obligation). *)
+Theorem C17_flags_now : cfg_validates_wavelengths = true /\ cfg_rejects_bad_period = true.
+Proof. exact flags_now. Qed.
+
+(* rule 3: a signal wavelength not longer than the pump's is an error, whatever else is auto or explicit *)
+Theorem C17_rule_signal_le_pump : forall num (o : NumOps num) U K minpos (c : spdc_cfg num),
+  cfg_le o c = true -> try_as_spdc_now o U K minpos c = Err ESignalLePump.
+Proof. exact now_rule_signal_le_pump. Qed.
+
+Theorem C17_rule_signal_angles_now : forall num (o : NumOps num) U K minpos (c : spdc_cfg num),
+  angle_spec_bad (c_signal c) -> is_err (try_as_spdc_now o U K minpos c) = true /\
+  (cfg_le o c = false -> try_as_spdc_now o U K minpos c = Err EThetaSpec).
+Proof. exact now_rule_signal_angles. Qed.
+
+Theorem C17_rule_auto_theta_with_poling_now : forall num (o : NumOps num) U K minpos (c : spdc_cfg num),
+  cc_theta_deg (c_crystal c) = Auto -> c_pp c <> PCOff -> is_ok (try_as_spdc_now o U K minpos c) = false.
+Proof. exact now_rule_auto_theta_with_poling. Qed.
+
+Theorem C17_rule_impossible_period_now : forall num (o : NumOps num) U K minpos (c : spdc_cfg num) signal a p,
+  cfg_le o c = false -> signal_step o K c = Ok signal -> c_pp c = PCConfig Auto a ->
+  signal_le_pump o signal (cfg_pump o c) = false ->
+  neqb o (o_dkz0 K signal (cfg_pump o c) (cfg_cs0 o c)) (n0 o) = false ->
+  o_nm_period K signal (cfg_pump o c) (cfg_cs0 o c) = Some p -> nltb o (cs_length (cfg_cs0 o c)) p = true ->
+  try_as_spdc_now o U K minpos c = Err EImpossiblePeriod.
+Proof. exact now_rule_impossible_period. Qed.
+
+(* rule 5: an explicit poling period of 0 is an error *)
+Theorem C17_rule_bad_period : forall num (o : NumOps num) U K minpos (c : spdc_cfg num) signal pu a,
+  cfg_le o c = false -> signal_step o K c = Ok signal -> c_pp c = PCConfig (Param pu) a -> neqb o pu (n0 o) = true ->
+  try_as_spdc_now o U K minpos c = Err EBadPeriod.
+Proof. exact now_rule_bad_period. Qed.
+
+(* never panics -- for ALL configurations and wavelengths -- provided no simplex search fails (a search fails exactly on a NaN
+   cost: known finding F7b); and the only possible panic is that one.  [scale_order]: multiplying both wavelengths by the nm
+   unit factor preserves their order (law of the carrier; true over R and Q, Example C17_ex_entry). *)
+Theorem C17_no_panic : forall num (o : NumOps num) U K minpos (c : spdc_cfg num),
+  scale_order o -> searches_total K -> is_panic (try_as_spdc_now o U K minpos c) = false.
+Proof. exact now_no_panic. Qed.
+
+Theorem C17_panics_only_search : forall num (o : NumOps num) U K minpos (c : spdc_cfg num) s,
+  scale_order o -> try_as_spdc_now o U K minpos c = Panic s -> s = SiteNelderMeadUnwrap.
+Proof. exact now_panics_only_search. Qed.
+
+(* the property's first sentence: either Ok with no non-finite field, or Err (under the oracle contracts: searches succeed,
+   idler angle / waist position defined, delta k of the unpoled crystal not exactly 0) *)
+Theorem C17_ok_finite_or_err_partial : forall num (o : NumOps num) U K minpos (c : spdc_cfg num),
+  scale_order o -> searches_total K -> geometry_defined K ->
+  (forall signal, signal_step o K c = Ok signal -> neqb o (o_dkz0 K signal (cfg_pump o c) (cfg_cs0 o c)) (n0 o) = false) ->
+  (exists s, try_as_spdc_now o U K minpos c = Ok (s, [])) \/ (exists e, try_as_spdc_now o U K minpos c = Err e).
+Proof. exact now_ok_finite_or_err. Qed.
 
 (* ---- non-vacuity: the hypotheses are satisfiable (concrete configuration and oracles at the Q instance) *)
 Local Open Scope Q_scope.
@@ -137,16 +193,16 @@ Definition ex_cfg (ls : Q) (theta : auto Q) (pp : pp_cfg Q) : spdc_cfg Q :=
                     bc_waist_um := 100; bc_waist_pos_um := Auto |};
      c_idler := Auto; c_pp := pp; c_deff := 76 # 10 |}.
 
-Example C17_ex_ok : is_ok (try_as_spdc_steps Q_ops ex_units ex_oracles (1 # 1000000000000) (ex_cfg 1550 (Param 90) (PCConfig Auto ACOff))) = true.
+Example C17_ex_ok : is_ok (try_as_spdc_now Q_ops ex_units ex_oracles (1 # 1000000000000) (ex_cfg 1550 (Param 90) (PCConfig Auto ACOff))) = true.
 Proof. vm_compute. reflexivity. Qed.
 Example C17_ex_contracts : searches_total ex_oracles /\ geometry_defined ex_oracles.
 Proof. repeat split; intros; discriminate. Qed.
 Example C17_ex_le_pump : exists signal, signal_step Q_ops ex_oracles (ex_cfg 700 (Param 90) PCOff) = Ok signal /\
   signal_le_pump Q_ops signal (cfg_pump Q_ops (ex_cfg 700 (Param 90) PCOff)) = true.
 Proof. eexists. split; [vm_compute; reflexivity | vm_compute; reflexivity]. Qed.
-Example C17_ex_auto_theta_poling : try_as_spdc_steps Q_ops ex_units ex_oracles (1 # 1000000000000) (ex_cfg 1550 Auto (PCConfig Auto ACOff)) = Err EAutoThetaWithPoling.
+Example C17_ex_auto_theta_poling : try_as_spdc_now Q_ops ex_units ex_oracles (1 # 1000000000000) (ex_cfg 1550 Auto (PCConfig Auto ACOff)) = Err EAutoThetaWithPoling.
 Proof. vm_compute. reflexivity. Qed.
-Example C17_ex_impossible : try_as_spdc_steps Q_ops ex_units ex_oracles (1 # 1000000000000)
+Example C17_ex_impossible : try_as_spdc_now Q_ops ex_units ex_oracles (1 # 1000000000000)
   {| c_crystal := {| cc_kind := "KTP"; cc_pm := Type2_e_eo; cc_phi_deg := 0; cc_theta_deg := Param 90;
                      cc_length_um := 10; cc_temperature_c := 20; cc_counter := false |};
      c_pump := c_pump (ex_cfg 1550 Auto PCOff); c_signal := c_signal (ex_cfg 1550 Auto PCOff); c_idler := Auto;
@@ -162,6 +218,20 @@ Proof.
   - apply Qmult_le_compat_r; [exact H | discriminate].
 Qed.
 
+Example C17_ex_le : try_as_spdc_now Q_ops ex_units ex_oracles (1 # 1000000000000) (ex_cfg 700 Auto (PCConfig Auto ACOff)) = Err ESignalLePump.
+Proof. vm_compute. reflexivity. Qed.
+Example C17_ex_bad_period : try_as_spdc_now Q_ops ex_units ex_oracles (1 # 1000000000000) (ex_cfg 1550 (Param 90) (PCConfig (Param 0) ACOff)) = Err EBadPeriod.
+Proof. vm_compute. reflexivity. Qed.
+
+Print Assumptions C17_flags_now.
+Print Assumptions C17_rule_signal_le_pump.
+Print Assumptions C17_rule_signal_angles_now.
+Print Assumptions C17_rule_auto_theta_with_poling_now.
+Print Assumptions C17_rule_impossible_period_now.
+Print Assumptions C17_rule_bad_period.
+Print Assumptions C17_no_panic.
+Print Assumptions C17_panics_only_search.
+Print Assumptions C17_ok_finite_or_err_partial.
 Print Assumptions C17_entry.
 Print Assumptions C17_rule_signal_le_pump_when_validated.
 Print Assumptions C17_panics_only_search_when_validated.
